@@ -29,6 +29,36 @@ CLAIMED = {
         note="Closed under the global context. Clock arithmetic idealised over Z ticks (dyadic clocks in the correspondence); spacing theorems assume non-decreasing clock readings.",
         technique="Coq proof (induction over histories, invariants) + trace correspondence evaluated in Coq",
         design="6.11"),
+    "C15": dict(
+        text="Theorems (Coq, all mode shapes, per-iteration user code, histories over any number of periods): first state runs "
+             "after on_enable; a timed state holds until tm exceeds start+duration (dashboard value read at on_enable) and hands over "
+             "with the successor's clock at the predecessor's expiry; every entered state runs once with initial_call exactly on its "
+             "first call after each entry; actions take effect next iteration; nothing runs after the end; state_tm >= 0; and period "
+             "independence: trace(h ++ OnEnable d :: p) = trace h ++ trace(OnEnable d :: p). Legacy (pre-fix D6) variant refuted. "
+             "Tied to StatefulAutonomous by trace correspondence (generated subclasses, dyadic tm, real SmartDashboard).",
+        note="Closed under the global context. Float rounding not modelled (dyadic tm values in the correspondence).",
+        technique="Coq proof (induction over histories, trace equality/refinement) + trace correspondence evaluated in Coq",
+        design="6.3"),
+    "C08": dict(
+        text="Theorems (Coq, every robot definition and subclass relation): after startup every public unset annotated attribute of every "
+             "component/mode is exactly the object picked from robot attributes + ALL components by name, else '<cname>_<name>', and is an "
+             "instance of the annotated type; injection precedes the first setup(); order independence under permutation of declarations; "
+             "preset/private attributes untouched; constructor parameters only from robot attributes and earlier components; startup fails "
+             "iff a request is unsatisfied or mistyped; falsy values inject. Tied to inject.py/_create_components by correspondence on "
+             "generated robots (object identity).",
+        note="Closed under the global context. isinstance, get_type_hints order, hasattr/dir are inputs of the model (trusted CPython).",
+        technique="Coq proof (induction over component lists, Permutation) + correspondence on generated robots evaluated in Coq",
+        design="6.5"),
+    "C12": dict(
+        text="Theorems (Coq, every list of class bodies in MRO order, every signature, every reserved-name list): build succeeds iff exactly "
+             "one effective first state and at most one default (errors sound); the reversed-MRO dict.update fold is attribute lookup; a "
+             "signature is rejected iff first parameter is not self, or *args/**kw/keyword-only, or a name outside the four; name collision "
+             "iff in the reserved list (regenerated from hasattr/annotations of StateMachine every run); alias/owner checks; direct call is "
+             "IllegalCall; state_names exact, duplicate-free, bases-first order, descriptions aligned. Tied by correspondence on generated "
+             "class definitions (exhaustive over reserved names x decorators and short signatures).",
+        note="Closed under the global context. C3 MRO, inspect.signature, name mangling are inputs of the model (trusted CPython).",
+        technique="Coq proof (induction over class-body lists) + regenerated reserved-name list + correspondence evaluated in Coq",
+        design="6.2"),
 }
 
 PENDING_REASON = "check not built yet in this revision (model and proof planned in DESIGN.md section 6); not claimed until its check exists"
